@@ -228,13 +228,14 @@ class PageRenderer:
                     )
                     header_copy.text = header_df  # type: ignore[assignment]
 
-                    # Adjust col_rel_width if needed (logic from PaginatedStrategy)
-                    # Since we are using page.data which is already sliced/processed,
-                    # Might need to adjust widths if defined for full table.
-                    if document.rtf_body.col_rel_width is not None:
-                        # If body has specific widths, try to map them.
-                        # If header text exists, proceed.
-                        pass
+                    # The column names come from the page's displayed columns
+                    # (page_by/subline_by columns removed), so the widths must be
+                    # the displayed columns' widths too, not the full table's.
+                    page_widths = (
+                        page.table_attrs.col_rel_width if page.table_attrs else None
+                    )
+                    if page_widths and len(page_widths) == len(columns):
+                        header_copy.col_rel_width = list(page_widths)
 
             # Remove columns if necessary (page_by/subline_by)
             # Note: page.data already has columns removed if populated from it.
